@@ -106,6 +106,8 @@ def parse_file(path):
                     cur[k] = q if v.startswith('"') else v
                 continue
             if cur is not None:
+                if "kani::stub(" in line:
+                    cur["stub"] = "1"
                 m = FN.match(line)
                 if m:
                     cur["name"] = m.group(1)
